@@ -66,7 +66,7 @@ def run(check, tier):
         "attribute names and dict keys are 'n'/'k' + symbolic string (valid zarr node names, not reserved)",
     ]
     check.outside += ["graphs deeper than 3 or wider than 2 per container (except string sequences up to 23 members)", "non-string dict keys",
-                      "dill-fallback objects other than complex/bytes/frozenset",
+                      "dill-fallback objects other than complex/bytes/frozenset", "sets with complex members next to numbers",
                       "mixed int/float numeric sequences with |int| > 2^53 when realised values do not hit them"]
     quick = tier == "quick"
     t = 120 if quick else 600
@@ -101,7 +101,7 @@ def run(check, tier):
     # complex members next to (large) integers / floats / bools in lists, tuples and sets
     jobs.append(dict(fn="rt_complex_seq__reach", timeout=60))
     for a in (range(len(h.CSEQ_MENU)) if not quick else [1, 2, 5, 6] + rnd.sample(range(len(h.CSEQ_MENU)), 2)):
-        for kind in range(3):
+        for kind in range(2):       # list, tuple (sets of NumPy / complex members do not finish in CrossHair's set model: outside)
             for n in ((3,) if quick else (2, 3)):
                 jobs.append(dict(fn="rt_complex_seq", fixed=dict(a=a, kind=kind, n=n, wrap=rnd.randrange(3)), timeout=t * 2 if quick else 1500,
                                  key=f"complex_seq:kind={kind}"))
